@@ -113,7 +113,7 @@ func c13one(c *wk.Ctx, i int, rng *rand.Rand, w *world, name string) {
 			proxies[k] = append(proxies[k], p)
 		}
 	}
-	var progress int64
+	var progress, siblingRaces int64
 	var mu sync.Mutex
 	var subs []*c13sub
 	var emissions []emission
@@ -335,6 +335,18 @@ func c13one(c *wk.Ctx, i int, rng *rand.Rand, w *world, name string) {
 		}
 		return proxies[s][j], kind
 	}
+	// pickPair: the proxy one goroutine uses and the one the goroutine racing with it uses: the same
+	// proxy, or (one time in two) the other proxy of the same object in the same session, which
+	// shares the connection and the client-side registration
+	pickPair := func(r *rand.Rand) (probe.ProbeProxy, probe.ProbeProxy) {
+		s := r.Intn(nSess)
+		j := r.Intn(2)
+		if r.Intn(2) == 0 {
+			atomic.AddInt64(&siblingRaces, 1)
+			return proxies[s][j], proxies[s][1-j]
+		}
+		return proxies[s][j], proxies[s][j]
+	}
 	for k := range sessions {
 		if rng.Intn(2) == 0 {
 			subscribeOther(proxies[k][rng.Intn(2)])
@@ -354,11 +366,15 @@ func c13one(c *wk.Ctx, i int, rng *rand.Rand, w *world, name string) {
 			subscribe(p, kind)
 		case x < 4:
 			// two goroutines subscribe on one proxy at once; emit right after the first returns
-			p, _ := pickProxy(rng)
+			pa, pb := pickPair(rng)
 			first := make(chan struct{}, 2)
 			var wg sync.WaitGroup
 			for g := 0; g < 2; g++ {
 				wg.Add(1)
+				p := pa
+				if g == 1 {
+					p = pb
+				}
 				go func() {
 					defer wg.Done()
 					subscribe(p, "concurrent-subscribe-same-signal")
@@ -371,13 +387,13 @@ func c13one(c *wk.Ctx, i int, rng *rand.Rand, w *world, name string) {
 			emit()
 		case x < 5:
 			// cancel of the last subscriber of a proxy racing a new subscribe on it
-			p, _ := pickProxy(rng)
+			p, q := pickPair(rng)
 			s1 := subscribe(p, "before-cancel-race")
 			emit()
 			var wg sync.WaitGroup
 			wg.Add(2)
 			go func() { defer wg.Done(); cancelSub(s1) }()
-			go func() { defer wg.Done(); subscribe(p, "cancel-racing-subscribe") }()
+			go func() { defer wg.Done(); subscribe(q, "cancel-racing-subscribe") }()
 			wg.Wait()
 			emit()
 			emit()
@@ -483,6 +499,7 @@ func c13one(c *wk.Ctx, i int, rng *rand.Rand, w *world, name string) {
 		seen[x[0]] = true
 		c.Viol("plan", i, x[0], x[1], map[string]interface{}{"service": name, "sessions": nSess, "subscribers": len(all), "emissions": next, "steps": steps})
 	}
+	c.Count("races_between_two_proxies_of_one_object_in_one_session", atomic.LoadInt64(&siblingRaces))
 	c.Count("emissions", int64(next))
 	c.Count("subscribers", int64(len(all)))
 	c.Count("raw_events", int64(len(rawEvents)))
